@@ -192,29 +192,35 @@ def rule_status_tables(ctx):
             variants.append("Status::%s(%s::%s)" % (outer, outer, v))
     ctx.add("TAB-STATUS", "display-total", sorted(disp) == sorted(variants) and all(disp.values()), ctx.site(d),
             "Display covers every Status value with a literal, no wildcard: %s" % disp)
-    # FromStr: match on &str with literal patterns
-    fm = [m for m in hq.nodes(f["body"], "Match") if m.get("src") == "Normal" and any(hq.pat_key(a["pat"]).startswith('"') for a in m["arms"])]
-    if len(fm) != 1:
-        raise AnalysisGap("FromStr for Status: expected one match on string literals")
+    # FromStr, decided on what it computes: which status word gives which value (a match whose arms are `Ok(..)`, or one whose result is wrapped
+    # in Ok afterwards, an early return for the missing line ..)
+    from .. import leaves as _lv, comp as _comp
+    fv = sym.Eval(fx, inline_depth=0).function(f, [("param", "$s")])
 
-    def val(e):
-        e = strip(e)
-        c = ctor_of(e)
-        if c and c[1] in ("Ok", "Err") and e.get("k") == "Call":
-            inner = hq.const_of(e["args"][0])
-            if c[1] == "Ok" and inner and inner[0] == "variant" and len(inner) == 4:
-                iv = inner[3][0]
-                return "Status::%s(%s::%s)" % (inner[2], iv[1], iv[2])
+    def describe(val):
+        if isinstance(val, tuple) and val[:2] == ("ctor", "Result::Ok"):
+            st_ = dict(val[2]).get("0")
+            if isinstance(st_, tuple) and st_[:1] == ("ctor",) and st_[1].startswith("Status::") and st_[2] and isinstance(st_[2][0][1], tuple) and st_[2][0][1][:1] == ("ctor",):
+                return "%s(%s)" % (st_[1], st_[2][0][1][1])
+            return None
+        if isinstance(val, tuple) and val[:2] == ("ctor", "Result::Err"):
             return "Err"
         return None
-
-    parse = {}
-    default = None
-    for key, v, arm in hq.match_table(fm[0], value=val):
-        if key.startswith('"'):
-            parse[key.strip('"')] = v
-        else:
-            default = v
+    parse, default = {}, None
+    try:
+        with _lv.self_contained():
+            fl = _lv.leaves(_comp.case_of_case(_lv.lift(fv)))
+    except Exception as e:
+        raise AnalysisGap("FromStr for Status: %s" % e)
+    for ts_, val_ in fl:
+        pos = [t_ for t_ in ts_ if t_[0] == "eq" and isinstance(t_[2], str)]
+        neg = [t_ for t_ in ts_ if t_[0] == "not" and any(u_[0] == "eq" for u_ in t_[1])]
+        if len(pos) == 1:
+            parse[pos[0][2]] = describe(val_)
+        elif not pos and neg:
+            default = describe(val_)
+    if not parse:
+        raise AnalysisGap("FromStr for Status: no decision on string literals found")
     ctx.add("TAB-STATUS", "unknown-is-err", default == "Err", ctx.site(f), "an unrecognised status word yields Err (%s)" % default)
     th = [k for k, v in parse.items() if v == "Status::Success(Success::Theorem)"]
     ctx.add("TAB-STATUS", "only-theorem", th == ["Theorem"], ctx.site(f), "exactly the word \"Theorem\" parses to Success::Theorem: %s" % th, construct=parse)
@@ -228,6 +234,13 @@ def rule_status_tables(ctx):
     caps = hq.calls(f["body"], "Regex::captures")
     pm = hq.parent_map(f["body"])
     ok = len(caps) == 1 and hq.is_try_propagated(pm, caps[0]) and pm[id(caps[0])].get("method") in ("ok_or", "ok_or_else")
+    if not ok and len(caps) == 1:
+        # the same refusal as an explicit exit: `let Some(c) = RE.captures(s) else { return Err(Missing) }`
+        CAP_ = [x for x in sym.subterms(fv) if isinstance(x, tuple) and x[:2] == ("call", "Regex::captures")]
+        missing = ("ctor", "Result::Err", (("0", ("ctor", "StatusExtractionError::Missing", ())),))
+        for ts_, val_ in fl:
+            if val_ == missing and CAP_ and any(t_ in (("not", (("is", CAP_[0], "Option::Some"),)), ("is", CAP_[0], "Option::None")) for t_ in ts_):
+                ok = True
     ctx.add("TAB-STATUS", "missing-is-err", ok, ctx.site(f), "a text without status line propagates Err(Missing) with `?`")
     # the regex literal
     st = fx.fns("STATUS")
@@ -276,7 +289,7 @@ def rule_once(ctx):
             r = leaves.cond_tests(c, pol)
             if r is False:
                 return None
-            ts += r
+            ts += [t_[1] if t_[0] == "survived" else t_ for t_ in r]      # an earlier `return` not taken is a condition like any other
         return ts
     SELF, PROBLEMS = ("param", pa["params"][0].get("name", "self")), ("param", pa["params"][1].get("name", "problems"))
     inst = ("call", "Prover::instances", (SELF,))
@@ -544,6 +557,10 @@ def rule_worker_panics(ctx):
         if ent is None and slack.get(kind, 0) >= cnt:
             slack[kind] -= cnt
             ctx.ok("FLOW-MONO", "worker-panic:moved|%s" % kind, "%s:%s" % (f, l), "%d site(s) of kind `%s` in %s: a tabled site of that kind left its function (code motion)" % (cnt, kind, fn), nontrivial=False)
+            continue
+        if ent is None and kind == "index" and c16._regex_group_indexes(fx, fn) >= cnt:
+            ctx.ok("FLOW-MONO", "worker-panic:regex-group|%s" % hq.last(fn, 2), "%s:%s" % (f, l),
+                   "%d index site(s) in %s read a named group that the status regex has: they cannot panic" % (cnt, fn), nontrivial=False)
             continue
         if ent is None:
             ctx.bad("FLOW-MONO", "worker-panic:%s|%s" % (hq.last(fn, 2), kind), "%s:%s" % (f, l),
